@@ -575,6 +575,17 @@ func runEnc(c *eng.Ctx, cf cfg) {
 							c.Check(got.MetaData.Equal(&ptMeta), "C03|Decryptor.Decrypt|metadata", func() string {
 								return fmt.Sprintf("got=%+v want=%+v", *got.MetaData, ptMeta)
 							})
+							// the metadata of the decrypted plaintext are the plaintext's own: relabelling it (a recycled scratch
+							// plaintext gets another scale / domain flag) must leave the ciphertext's metadata alone
+							{
+								keep := *got.MetaData
+								before := *dct.MetaData
+								got.Scale = rlwe.NewScale(12345)
+								got.IsNTT, got.IsBatched = !got.IsNTT, !got.IsBatched
+								c.Check(dct.MetaData.Equal(&before), "C03|Decryptor.Decrypt|plaintext-shares-its-metadata-with-the-ciphertext", nil)
+								*got.MetaData = keep
+								*dct.MetaData = before
+							}
 							gm := obs.Plain(rq, got.Value, got.IsNTT, got.IsMontgomery)
 							e := obs.Diff(rq, gm, msg)
 							st := obs.Stat(e)
